@@ -370,5 +370,42 @@ def run(chk, tier):
 
 
 SELFTEST_NOTES = """
-(filled in below)
+Binding demonstration (2026-10-04, quick tier, scratch worktree /tmp/wt-c12 of /repo HEAD, VERIF_SRC=<worktree>/aldor/aldor/src;
+the foamj run time is compiled from the worktree, the library archives foam.jar/foamlib.jar/aldor.jar are the shipped ones).
+
+Unchanged tree: exit 0 with VERIF_SEED = 20261004, 5, 6, 7, 8 (KNOWN-FINDING lines only).
+
+Mutations (all compile):
+  M1 foamj/Math.java   rem(BigInteger): remainder -> mod                      CAUGHT  6 violations (J1_arith: ArithmeticException
+                                                                                      at every level; corpus machine_bint)
+  M2 genjava.c         builtin table: SIntLT -> JCO_OP_LE                      CAUGHT  9 violations (J5_loops and generated programs,
+                                                                                      -Q3/-Q9 only: at -Q1 the comparison runs inside
+                                                                                      the shipped aldor.jar)
+  M3 javacode.c        jc0EscapeString: `"` no longer escaped                  CAUGHT  14 violations (javac-fail: J3_record, J8_strings ..)
+  M4 foamj/Math.java   formatSInt(int,Object,int): prints abs(v)               missed  (entry point not used by libaldor's own integer
+                                                                                      formatting; nothing in the family reaches it)
+  M5 javasig.c         javaSigArgN: argv[n+3] -> argv[n+2]                     missed  (expected: Foreign-Java signatures are not exercised, see below)
+  M6 foamj/Math.java   isOdd: (n & 1) == 1 -> n % 2 == 1                       CAUGHT  1 violation (corpus machine_sint: odd?(-7) via the Machine builtin)
+  M7 genjava.c         builtin table: BIntIsNeg -> foamj.Math.isPos            CAUGHT  6 violations (J1_arith and generated programs at -Q3/-Q9)
+  javasig.c / gf_java.c serve `import/export ... Foreign Java`; such programs cannot run on the interpreter, so the
+  statement of C12 (equality with the interpreter) does not reach them.
+
+Candidate fixes applied together in a second worktree (hooks/fix-C12-bcall-statement.diff, fix-C12-operand-parentheses.diff,
+fix-C12-builtin-table.diff): quick check exits 0 and the KNOWN-FINDING lines for 'not a statement', the parentheses and the
+negative shift disappear; SIntNot/BIntLength remain visible at -Q1 because there the operation runs inside the shipped aldor.jar,
+which was generated by the unfixed compiler (regenerating the library archives is outside this check).
+
+Corrupted events (checks/c12.py campaign(corrupt=...), fixed probes J1/J4/J7):
+  one bit of the recorded output digest of (J4_closure, java, -Q3) flipped      -> TLC: NONCONF why = {output, routes}
+  exit class of (J7_halt, java, -Q9) changed from 1 to 0                        -> TLC: NONCONF why = {status, routes}
+  the Run event (J1_arith, java, -Q1) removed                                   -> TLC: INCOMPLETE missing = {<<java, 1>>}, accepted = FALSE
+  a Run event of a program outside the family / a repeated run / an unknown level is no step of JavaRoute: STUCK, NotStuck violated
+  (machinery error, exit 2).
+JavaRouteWitness/JavaRouteWitness2.cfg: an accepted closed campaign and a rejection are reachable in the monitor model
+(checked in every run; otherwise exit 2).
+
+Admission of features to the libaldor dialect (interpreter route against AldorSem on the unchanged tree, before Java was looked at):
+seeds 1, 3, 7 (~400 programs) with bi, str, fun, while, for, exit, list, rec, clos, brk, rec_fun, halt: no disagreement other than the
+-Q9 inliner hang (known from C02/C03) and the front-end rejection F2; seeds 5, 6, 8 with throw.  Not admitted: arr (libaldor arrays
+are 0-based, AldorSem's 1-based), un and gen (not yet compared), try (FOAM Catch is not implemented by genjava.c).
 """
